@@ -3,8 +3,10 @@ LEVELS = {
     'C25': 'proof',
     'C26': 'proof',
     'C27': 'proof',
+    'C28': 'proof',
 }
 EXPLAIN = {
+    'C28': 'metrics::make is enforced against the normalised-layout contract for all head/array values and hash sizes 1..64 bytes; consecutive cuts/reset/eos of the real splitters are enforced; exact consumption, same-path and the divergence induction step are lemmas over the metrics and cut contracts.',
     'C27': 'regular_hash/dummy_hash (three reversal algorithms), bucket_no and parent_bucket of the three SplitListSet variants are enforced against contracts for all 64-bit hashes and all table sizes 2^0..2^63; the ordering statements of the property are lemmas discharged over those contracts only.',
     'C26': 'inc/dec of the real bit_reverse_counter<size_t> carry contracts over the state predicate wf(c,r,h) for ALL 2^64 counter states (loops closed by width-complete unwinding); the undo sentence is additionally enforced on two- and three-call sequences of the real code; level/injectivity/prefix lemmas are discharged over the predicate alone. The literal every-n prefix statement is a known finding (false for n != 2^k-1 by design).',
     'C25': 'Function contracts (reference definitions as postconditions) enforced on every function of the bit helpers with all inputs symbolic at full width; callers verified against callee contracts; loops closed by word-width unwinding with unwinding assertions (complete).',
